@@ -772,6 +772,40 @@ func (g *c12Gen) nearClock() {
 	}
 }
 
+// finding F62: request timestamps and valid_until_ts / expired_ts at 2^63-1, 2^63 and 2^64-1; the
+// specification oracle compares the millisecond values as unsigned integers
+func (g *c12Gen) int64Boundary() {
+	now := g.nowMs()
+	big := []uint64{1<<63 - 1, 1 << 63, 1<<64 - 1}
+	type rec struct {
+		name    string
+		exp, vu uint64
+	}
+	recs := []rec{{"valid one more hour", 0, now + c12Hour}, {"valid 2 days", 0, now + 2*c12Day}}
+	for _, b := range big {
+		recs = append(recs, rec{fmt.Sprintf("valid_until_ts=%d", b), 0, b}, rec{fmt.Sprintf("expired_ts=%d", b), b, 0})
+	}
+	ats := append([]uint64{now - c12Hour, now + c12Hour/2}, big...)
+	msg, _ := c12Message(1, []c12SigSpec{{"srvA", "ed25519:a", c12Good, 0}}, false)
+	for _, at := range ats {
+		for _, r := range recs {
+			for _, strict := range []bool{false, true} {
+				for _, viaFetcher := range []bool{false, true} {
+					sc := &c12Scenario{Reqs: []c12Req{{"srvA", at, strict}}, Sig: []c12Sig{{0, "ed25519:a", c12Keys[0].hex}}}
+					k := c12Key{Server: "srvA", Kid: "ed25519:a", Key: c12Keys[0].hex, Exp: r.exp, VU: r.vu}
+					if viaFetcher {
+						sc.Fetchers = []c12Script{{Keys: []c12Key{k}}}
+					} else {
+						sc.DB.Keys = []c12Key{k}
+					}
+					g.run(sc, [][]byte{msg}, fmt.Sprintf("int64 boundary: at=%d key %s strict=%v fetcher=%v", at, r.name, strict, viaFetcher))
+					g.c.Count("int64-boundary")
+				}
+			}
+		}
+	}
+}
+
 // boundaries against the clock itself, to the millisecond (see c12RunVerify)
 func (g *c12Gen) exactClock() {
 	msg, _ := c12Message(1, []c12SigSpec{{"srvA", "ed25519:a", c12Good, 0}}, false)
@@ -878,6 +912,7 @@ func init() {
 		g.firstPass()
 		g.nearClock()
 		g.exactClock()
+		g.int64Boundary()
 		n := c.Scale(1500, 40000)
 		for i := 0; i < n; i++ {
 			g.batch()
